@@ -134,12 +134,17 @@ def conv_record(vec, n):
     vec = np.asarray(vec, dtype=np.uint8)
     s = ''.join(letters(vec, n))
     sp = csr_matrix(vec.reshape(1, -1))
+    nzr = np.nonzero(vec)[0][::-1]
+    sp_unsorted = csr_matrix((np.ones(len(nzr), dtype=np.uint8), nzr.copy(),
+                              np.array([0, len(nzr)])), shape=(1, 2 * n))
     stack = np.vstack([vec, vec])
     rec = {
         'kind': 'conv', 'n': n, 'a': codes.bsf_to_op(vec, n),
         'str_bvector': list(bpauli.bvector_to_pauli_string(vec)),
         'str_dense': list(bpauli.bsf_to_pauli(vec)),
         'str_sparse': list(bpauli.bsf_to_pauli(sp)[0]),
+        'str_sparse_unsorted': list(bpauli.bsf_to_pauli(sp_unsorted)[0]),
+        'wt_sparse_unsorted': int(bpauli.bsf_wt(sp_unsorted)),
         'str_stack': list(bpauli.bsf_to_pauli(stack)[1]),
         'from_str': codes.bsf_to_op(bpauli.pauli_to_bsf(s), n),
         'from_str2': codes.bsf_to_op(bpauli.pauli_string_to_bvector(s), n),
